@@ -26,6 +26,7 @@ class Rec:
         self.pipes = []          # real pipelines in arrival order
         self.pkey = {}           # pipeline_id -> index in arrival order
         self.arrival = {}        # pipeline_id -> (tick, order)
+        self.parents0 = {}       # id(op) -> ids of its parents when the pipeline arrived
         self.arr_tick = {}       # id(pipeline) -> arrival tick (ids may legitimately recur once a pipeline has finished)
         self.rounds = []
         self.tick_results = []   # per executor tick: list of results
@@ -60,6 +61,7 @@ class Rec:
             self.arrival[p.pipeline_id] = (self.tick, len(self.pipes))
             self.arr_tick[id(p)] = self.tick
             for oi, op in enumerate(p.values):
+                self.parents0[id(op)] = tuple(id(q) for q in op.parents)
                 self.op_index[id(op)] = (len(self.pipes) - 1, oi)
                 self.log.register(op, (len(self.pipes) - 1, oi))
                 self.hold.append(op)
@@ -289,10 +291,21 @@ def _sys_tick_checks(R, ex, t):
                 seen[id(o)] = c.container_id
                 if o.state() not in (S.ASSIGNED, S.RUNNING, S.SUSPENDING, S.COMPLETED):
                     raise Violation("C02.live_state", {"op": R.okey(o), "state": o.state().value, "container": c.container_id}, t)
-    for p in R.pipes:
+    for k, p in enumerate(R.pipes):
         rs = p.runtime_status()
         if rs.finish_tick is not None:
             continue
+        if (k + t) % 4 == 0:
+            seen_ops = []
+            for o in p.values:
+                if tuple(id(q) for q in o.parents) != R.parents0.get(id(o)):
+                    raise Violation("C01.parents_changed", {"op": R.okey(o), "when": "mid-run"}, t)
+                if any(id(q) not in seen_ops for q in o.parents) or id(o) in seen_ops:
+                    raise Violation("C01.iteration.child_before_parent", {"op": R.okey(o), "when": "mid-run"}, t)
+                seen_ops.append(id(o))
+            if len(seen_ops) != len(rs.operator_states):
+                raise Violation("C01.iteration.not_a_permutation", {"pipeline": p.pipeline_id, "visited": len(seen_ops),
+                                                                    "operators": len(rs.operator_states), "when": "mid-run"}, t)
         st = rs.operator_states
         hist = {}
         for o, s in st.items():
